@@ -477,6 +477,74 @@ def check_C09(tier, seed):
     return rep.finish()
 
 
+def roundtrip_runs(rep, seed, prefix, shards, per_shard, release=False):
+    _clean_traces(prefix)
+    paths, procs = [], []
+    exe = vlib.build_harness(release)
+    for s in range(shards):
+        p = os.path.join(TRACES, "%s%d.ndjson" % (prefix, s))
+        paths.append(p)
+        procs.append(subprocess.Popen([exe, "roundtrip", "--out", p, "--seed", str(seed), "--first", str(s * per_shard),
+                                       "--count", str(per_shard)], cwd=vlib.ROOT, stdout=subprocess.PIPE, stderr=subprocess.PIPE, text=True))
+    nruns = 0
+    for pr in procs:
+        out, err = pr.communicate(timeout=3000)
+        if pr.returncode != 0:
+            raise ToolError("vh roundtrip failed (exit %d): %s" % (pr.returncode, err[-1200:]))
+        nruns += json.loads(out.strip().splitlines()[-1])["runs"]
+    states = 0
+    nrej = 0
+    for sp in ("Trace_Contract", "Trace_AigerRef", "Trace_Dimacs"):
+        r1 = validate_traces(prefix + sp[6:9], sp, sp + ".cfg", paths, timeout=2400)
+        _report_rejects(rep, sp, r1["rejected"], "vh roundtrip --seed %d (run id in reset record); ./check C03 --replay <this file>" % seed)
+        states += r1["states"]
+        nrej += len(r1["rejected"])
+    seen = set()
+    sample = None
+    for p in paths:
+        with open(p) as fh:
+            for line in fh:
+                if '"ev":"reset"' in line[:700]:
+                    r = json.loads(line)
+                    if r.get("has_expect"):
+                        seen.add((r["parser"], r["lit"], bytes(r["input"])))
+                        if sample is None and 20 < len(r["input"]) < 90:
+                            sample = {"parser": r["parser"], "lit": r["lit"], "written_bytes": bytes(r["input"]).decode("latin1"),
+                                      "expected_items": r["expect"]}
+    rep.cov["traces_validated_against_impl"] = rep.cov.get("traces_validated_against_impl", 0) + nruns - nrej
+    rep.cov["trace_records_validated"] = rep.cov.get("trace_records_validated", 0) + states
+    rep.cov["evaluations"] = rep.cov.get("evaluations", 0) + nruns
+    rep.cov["distinct_nontrivial"] = rep.cov.get("distinct_nontrivial", 0) + len(seen)
+    if sample:
+        rep.cov["samples"].append({"roundtrip": sample})
+    _clean_traces(prefix)
+
+
+def check_C03(tier, seed):
+    rep = Report("C03", tier, seed, "model_checking")
+    res = tlc_mc("mc_digits", "MC_Digits", "MC_Digits_%s.cfg" % ("quick" if tier == QUICK else "thorough"), timeout=2400)
+    mc_must_pass(rep, res, "MC_Digits")
+    mc_writer(rep, tier)
+    if tier == QUICK:
+        roundtrip_runs(rep, seed, "c03_", 12, 150)
+    else:
+        roundtrip_runs(rep, seed, "c03_", 14, 4000)
+        roundtrip_runs(rep, seed + 1, "c03r_", 14, 1500, release=True)
+    rep.cov["rule"] = ("(i) values of every format (DIMACS headers/clauses with extreme literals of all five literal types, u64 "
+                       "weights, usize groups; AIGER circuits of all five literal types with every count incl. zero, all latch "
+                       "initialisations, symbols of every kind at first and last index, UTF-8 names, comments incl. empty and "
+                       "multi-line, ordered and unordered, ASCII and binary; BTOR2 nodes of every operator, constant form, "
+                       "index arguments, symbols and comments, constants through the validating constructors with valid and "
+                       "invalid strings) are written by the real writers and parsed by the real parsers: ParserContract "
+                       "requires a clean end and exactly the value's items; the written bytes must also read back under the "
+                       "independent specifications (AigerRef reference reading, Dimacs machine). (ii) accepted generated texts "
+                       "are parsed, written and parsed again: the second parse must return the first one's items. "
+                       "A case is distinct by (parser, literal type, written bytes)")
+    rep.assumptions += ["names and comments are sampled, not enumerated; delta codes >= 2^56 are out of reach (DESIGN.md §7)",
+                        "BTOR2 has no independent reference reading: its round trip is held to the contract only"]
+    return rep.finish()
+
+
 DIMACS = "cnf,wcnf,gcnf"
 BOTH = ("Trace_Contract", "Trace_Dimacs")
 
